@@ -31,6 +31,11 @@ REPO = os.environ.get("VERIF_REPO", "/repo")
 NPROC = int(os.environ.get("VERIF_PROCS", "16"))
 
 
+# saved cases the parent process executed before forking the workers (known findings, regression files): they are
+# part of what a worker's library state has seen
+_PARENT_HISTORY = []
+
+
 class Violation(Exception):
     """The property does not hold for a case. ``key`` names the root-cause class (used for known findings)."""
 
@@ -58,9 +63,13 @@ class Stats:
         self.known = collections.Counter()
         self.discards = collections.Counter()
         self.steps = 0
+        self.history = None  # set by the worker: cases completed so far in this process (for sequence replays)
+        self.in_run = False
 
     def note(self, case, nontrivial: bool, classes=(), sample=None):
         """Called by execute() once per case: classify it and remember distinct non-trivial ones."""
+        if self.history is not None and not self.in_run:
+            self.history.append(case)  # state machines: the finished history is the case
         for c in classes:
             self.classes[c] += 1
         if nontrivial:
@@ -113,10 +122,16 @@ class Recorder:
         self.t0 = None
         self.budget = shrink_budget
         self.stopped = False
+        # cases completed in this process before the first failure: a failure that depends on what earlier cases
+        # left behind in the library (process-wide state) is replayed as that sequence
+        self.history = collections.deque(maxlen=400)
+        self.first = None
 
     def _failed(self, v: Violation, case):
         if v.case is None:
             v.case = case
+        if self.first is None:
+            self.first = (v.case, list(self.history))
         size = len(jsonx.dumps(v.case))
         if self.best is None or size < self.best_size:
             self.best, self.best_size = v, size
@@ -130,6 +145,7 @@ class Recorder:
         if self.stopped:
             return
         stats.evaluations += 1
+        stats.in_run = True
         try:
             execute(case, stats)
         except Discard as d:
@@ -140,6 +156,10 @@ class Recorder:
                 return
             self._failed(v, case)
             raise
+        finally:
+            stats.in_run = False
+        if self.first is None:
+            self.history.append(case)
 
     def step(self, fn, case_fn, stats: Stats):
         """For state machines: run one operation; on violation attach the history so far as the case."""
@@ -200,6 +220,7 @@ def _worker(task):
     t0 = time.time()
     stats = Stats()
     rec = Recorder(known_keys, shrink_budget=15.0 if tier == "quick" else 90.0)
+    stats.history = rec.history
     out = dict(sub=subname, shard=shard, error=None, violation=None)
     try:
         sys.setrecursionlimit(10000)
@@ -255,6 +276,17 @@ def _worker(task):
         if rec.best is not None:
             v = rec.best
             out["violation"] = dict(key=v.key, message=v.message, case=jsonx.enc(v.case))
+            if rec.first is not None:
+                first, prior = rec.first
+                enc_prior, budget = [], 8 << 20
+                for c in reversed(prior):
+                    e = dict(sub=subname, case=jsonx.enc(c))
+                    budget -= len(json.dumps(e))
+                    if budget < 0:
+                        break
+                    enc_prior.insert(0, e)
+                out["violation"]["first"] = jsonx.enc(first)
+                out["violation"]["prior"] = list(_PARENT_HISTORY) + enc_prior
     except BaseException:
         out["error"] = traceback.format_exc()
     collected = []
@@ -296,10 +328,12 @@ def replay_case(mod, subname, case):
     return None
 
 
-def save_replay(prop, subname, vio):
+def save_replay(prop, subname, vio, sequence=None):
     d = os.path.join(ROOT, "replays", prop)
     os.makedirs(d, exist_ok=True)
     body = dict(property=prop, sub=subname, key=vio["key"], message=vio["message"], case=vio["case"])
+    if sequence:
+        body["sequence"] = sequence  # cases executed (in this order, results ignored) before ``case``
     blob = json.dumps(body, sort_keys=True, indent=1)
     name = hashlib.sha1(blob.encode()).hexdigest()[:16] + ".json"
     path = os.path.join(d, name)
@@ -312,6 +346,41 @@ def load_replay(path):
     with open(path) as f:
         body = json.load(f)
     return body, jsonx.dec(body["case"])
+
+
+def _reproduces(prop, path):
+    """Does the saved replay report a violation when run in a fresh process?  (None: could not tell)"""
+    import subprocess
+
+    try:
+        r = subprocess.run([sys.executable, "-m", "harness.main", prop, "--replay", path], cwd=ROOT, capture_output=True, text=True, timeout=900)
+    except Exception:
+        return None
+    return {0: False, 1: True}.get(r.returncode)
+
+
+def confirm_replay(prop, subname, vio, path):
+    """A failure found late in a run may depend on what earlier cases left behind in the library; the shrunk case then
+    passes on its own.  Confirm the replay file in a fresh process and fall back to the shortest suffix of the cases
+    that preceded the first failure.  Returns (path, note)."""
+    ok = _reproduces(prop, path)
+    if ok is not False:
+        return path, None
+    prior, first = vio.get("prior") or [], vio.get("first")
+    if first is not None:
+        v1 = dict(vio, case=first)
+        k = 0
+        while True:
+            seq = prior[len(prior) - k :] if k else []
+            p = save_replay(prop, subname, v1, sequence=seq)
+            if _reproduces(prop, p):
+                os.remove(path) if os.path.exists(path) and p != path else None
+                return p, f"violation depends on process-wide state: replay is a sequence of {len(seq) + 1} cases"
+            os.remove(p) if p != path and os.path.exists(p) else None
+            if k >= len(prior):
+                break
+            k = min(len(prior), max(1, k * 2))
+    return path, "replay does not reproduce in a fresh process (the violation depends on earlier cases of this run)"
 
 
 def run_property(prop: str, tier: str, seed: int, only=None, nproc=NPROC) -> int:
@@ -339,6 +408,7 @@ def run_property(prop: str, tier: str, seed: int, only=None, nproc=NPROC) -> int
     for e in known:
         rp = os.path.join(ROOT, e["replay"])
         body, case = load_replay(rp)
+        _PARENT_HISTORY.append(dict(sub=body["sub"], case=body["case"]))
         v = replay_case(mod, body["sub"], case)
         if v is None:
             notes.append(f"known finding {e['key']} no longer reproduces on this tree")
@@ -361,6 +431,7 @@ def run_property(prop: str, tier: str, seed: int, only=None, nproc=NPROC) -> int
             if only and body["sub"] not in only:
                 continue
             nreg += 1
+            _PARENT_HISTORY.append(dict(sub=body["sub"], case=body["case"]))
             try:
                 v = replay_case(mod, body["sub"], case)
             except Exception:
@@ -384,7 +455,8 @@ def run_property(prop: str, tier: str, seed: int, only=None, nproc=NPROC) -> int
             results = [_worker(t) for t in tasks]
         else:
             ctx = multiprocessing.get_context("fork")
-            with ctx.Pool(min(nproc, len(tasks)), maxtasksperchild=None) as pool:
+            # one forked process per task: what one task leaves behind in the library never reaches another task
+            with ctx.Pool(min(nproc, len(tasks)), maxtasksperchild=1) as pool:
                 results = list(pool.imap_unordered(_worker, tasks, chunksize=1))
     results.sort(key=lambda r: (r["sub"], r["shard"]))
 
@@ -429,7 +501,12 @@ def run_property(prop: str, tier: str, seed: int, only=None, nproc=NPROC) -> int
     final = []
     for _, subname, vio, path in best.values():
         if path is None:
-            path = save_replay(prop, subname, vio)
+            path = save_replay(prop, subname, {k: v for k, v in vio.items() if k not in ("first", "prior")})
+            if os.environ.get("VERIF_CONFIRM_REPLAY", "1") == "1":
+                path, note = confirm_replay(prop, subname, vio, path)
+                if note:
+                    notes.append(note)
+                    print(f"NOTE property={prop} {note}")
         final.append((subname, vio, path))
 
     subs_by_name = {s.name: s for s in mod.SUBS}
@@ -489,6 +566,11 @@ def run_property(prop: str, tier: str, seed: int, only=None, nproc=NPROC) -> int
 def run_replay(prop: str, path: str) -> int:
     mod = importlib.import_module(f"harness.props.{prop.lower()}")
     body, case = load_replay(path)
+    for prev in body.get("sequence") or []:
+        try:  # earlier cases of the run that found the violation: executed for their effect on the library only
+            replay_case(mod, prev["sub"], jsonx.dec(prev["case"]))
+        except Exception:
+            pass
     v = replay_case(mod, body["sub"], case)
     if v is None:
         print(f"[{prop}] replay {path}: property held")
